@@ -23,6 +23,21 @@ T = {
  "C09": ("TLC model of wrapper stacks, one Wrap action per layer with exact composed poses (Gen_Stack, MC_Stack) replayed around a recording leaf (delegation matrix) and around the real solver",
          "Every stack up to the depth bound over non-commuting lattice isometries is enumerated by TLC with the exact forward pose, link poses and expected leaf entry; the harness replays all entry points and compares which leaf method is reached, with which pose/previous/J6, and maps real answers back through an independent stack forward.",
          "5-DOF clauses only for axial tools/frames; isometries are the six lattice choices of Gen_Stack (translation, quarter turn, generic rotations).", "4/C09"),
+ "C01": ("trace validation: TLC evaluates the Solver contract (spec/Solver.tla) on every recorded inverse call of a TLC-enumerated scenario lattice",
+         "Scenario classes (entry x DOF x pose class x previous class x limit class, all 64 sign patterns, geometry and offset classes, wrapper stacks) are enumerated by TLC; every returned joint vector of every call is judged by the TLA+ clause Sound against an independent forward model.",
+         "The 1 um / 1 urad facts are computed in f64 by the harness oracle (validated against the exact TLA+ chain in C03) and consumed by the spec as integers (nm, nrad).", "4/C01"),
+ "C02": ("trace validation of plain inverse on oracle-certified non-singular configurations: TLA+ clause Complete (origin present, wrist twin, no duplicates, closed answer set)",
+         "For every scenario instance with singularity margins the originating configuration, the geometric wrist twin of every answer, duplicate freedom and equal answer-set sizes for the poses of all answers are demanded by TLC; exact lattice configurations are covered through Gen_Chain poses in C03/C15.",
+         "Margins (|sin q5|, |sin elbow| > 0.05, wrist centre 5 cm off the J1 axis) are computed by the oracle.", "4/C02"),
+ "C04": ("trace validation with state: TLA+ clause Ordered on every continuation call + histories (trace spec variable `last` links each call's previous to the preceding first answer)",
+         "Nearest representative, non-decreasing documented cost (weights k/16 recomputed exactly by TLC), superset of plain inverse and previous-first are evaluated on every event; dense trajectories are followed and any branch switch or broken history is flagged.",
+         "Previous-first is demanded for weight 0 only (the documented cost); prev within +-2pi.", "4/C04"),
+ "C06": ("trace validation: TLA+ clause FiveDofOk on every 5-DOF call (both 5-DOF entry points on 6-DOF robots and all four entry points on robots declared 5-DOF)",
+         "J6 bitwise equal to the caller's value, originating J1..J5 present, tool point and tool axis within 1 um / 1 urad of the requested ones (oracle), and a declared 5-DOF robot answering plain inverse with J6 = 0.",
+         "Behind wrappers only axial tools are used for the 5-DOF clauses (the statement's presupposition).", "4/C06"),
+ "C08": ("trace validation with a twin robot: TLC recomputes limit compliance (OnArc) of every unconstrained answer and demands constrained = compliant subset",
+         "Each constrained call is paired with the same call on a twin without limits behind the same wrapper stack; TLA+ clause Constrained demands every answer inside the limits, no compliant solution dropped and (away from wrist singularities) nothing invented.",
+         "Angles closer than 3e-4 degree to a limit are don't-care.", "4/C08"),
 }
 
 REASON_TODO = "check not built yet in this round (planned, see DESIGN.md section 9); not claimed until it runs"
